@@ -160,6 +160,8 @@ func runC04(c *Check) {
 	ruleVerifyHookAdjacency(c, p, "C04-R8")
 	rulePublisherSeedsEmptyStore(c, p, "C04-R9")
 	ruleSinglePurposeWriters(c, p, "C04-R10")
+	ruleWritersRefuseNothing(c, p, "C04-R11")
+	ruleConstructorToleratesAbsentCursor(c, p, "C04-R12")
 }
 
 func runC05(c *Check) {
@@ -250,6 +252,7 @@ func runC05(c *Check) {
 	rulePersistedStateLoadable(c, p, "C05-R5")
 	ruleMarksAfterItems(c, p, "C05-R6")
 	ruleSinglePurposeWriters(c, p, "C05-R7")
+	ruleWritersRefuseNothing(c, p, "C05-R8")
 }
 
 // ruleReexecutionAccepted (C05-R4): the apply step executes a block before it records the new
@@ -1041,5 +1044,57 @@ func rulePublisherSeedsEmptyStore(c *Check, p *Prog, rule string) {
 	}
 	if n == 0 {
 		c.Unk(rule, "anchor-count", "", "", "anchor lost: the P2P publisher was not found")
+	}
+}
+
+// ruleConstructorToleratesAbsentCursor (C04-R12): the batch cursor (metadata written when a batch
+// is taken from the sequencing layer) first reaches the disk with the second block: the first
+// block is the genesis block found pending, for which no batch is taken. A sequencer that stops
+// after its first block therefore restarts with a chain height above zero and no cursor on disk.
+// The constructor reads the cursor; a failed read (absent key) must not make it fail — nothing but
+// producing the next block could ever create the key.
+func ruleConstructorToleratesAbsentCursor(c *Check, p *Prog, rule string) {
+	c.Doc(rule, "GA: in the manager's constructor a failed read of the batch-cursor metadata never leads to an error return (the key is absent until the second block: a sequencer stopped after its first block must start again).")
+	nm := p.Func(rootPath + "/block.NewManager")
+	if nm == nil {
+		c.Unk(rule, "NewManager", "", "", "anchor lost: the manager's constructor")
+		return
+	}
+	g := BuildECFG(p, nm, ExpandOpts{MaxDepth: 0})
+	c.NoteGraph(g)
+	lastKey, _ := constString(p, rootPath+"/pkg/store", "LastBatchDataKey")
+	isKey := func(t *Term) bool {
+		return t != nil && (strings.Contains(t.String(), "LastBatchDataKey") || (lastKey != "" && t.unconv().Op == "const" && t.unconv().Name == fmt.Sprintf("%q", lastKey)))
+	}
+	isCursorRead := func(t *Term) bool {
+		return (t.Op == "invoke" || t.Op == "call") && strings.HasSuffix(t.Name, "pkg/store.Store).GetMetadata") && len(t.Args) >= 3 && isKey(t.Args[2])
+	}
+	failed := g.Select(ErrNotNilEdge(isCursorRead))
+	reads := g.Select(func(n *Node) bool {
+		return CallName(n) == storeM("GetMetadata") && isKey(ArgTerm(n, 1))
+	})
+	inst := "NewManager ⟂ absent batch cursor is tolerated"
+	switch {
+	case len(reads) == 0:
+		c.OK(rule, inst, fnName(nm), p.Pos(nm.Pos()), "the constructor does not read the batch cursor", true)
+	case len(failed) == 0:
+		c.OK(rule, inst, fnName(nm), p.InstrPos(reads[0].In), "the error of the cursor read decides nothing", true)
+	default:
+		errExit := func(n *Node) bool { return g.AnyExit()(n) && g.ExitClass(n) == rcA }
+		// an error return that is reached from the failed read without passing another call's own failure
+		otherFail := g.Select(EdgeWhere(func(t *Term, pol bool, nd *Node) bool {
+			t, pol = normFact(t, pol)
+			if t.Op != "bin" || len(t.Args) != 2 || t.Args[1].Name != "nil" || (t.Name != "!=" && t.Name != "==") {
+				return false
+			}
+			a := t.Args[0]
+			if a.Op == "extract" && len(a.Args) > 0 {
+				a = a.Args[0]
+			}
+			return ((t.Name == "!=") == pol) && (a.Op == "call" || a.Op == "invoke") && !isCursorRead(a)
+		}))
+		c.Decide(rule, inst, fnName(nm), p.InstrPos(reads[0].In), "after a failed cursor read the constructor fails only if something else fails",
+			"the constructor returns an error because the batch cursor could not be read: the key does not exist until the second block takes a batch, so a sequencer that stopped after its first block can never be started again (only producing a block would create the key)",
+			g, g.PathAvoiding(failed, errExit, nodeSet(otherFail)))
 	}
 }
